@@ -119,6 +119,7 @@ type VC struct {
 	lastLock *State
 	preEval  map[ast.Expr]Term
 	argTerms []Term // evaluated arguments of the call whose anchored items are being applied
+	privSlices map[types.Object]bool // private local slices of the function under verification (private.go)
 }
 
 func (vc *VC) cur() *callFrame { return vc.frames[len(vc.frames)-1] }
@@ -392,11 +393,43 @@ func isGhostName(n string) bool { return strings.HasPrefix(n, "ghost$") || strin
 // havocHeap havocs all non-ghost heap entries (opaque call).
 func (vc *VC) havocHeap(st *State, why string) {
 	names := vc.sortedUniverse()
+	oldElems := map[string]Term{}
 	for _, n := range names {
 		if isGhostName(n) || strings.HasPrefix(n, "const$") || vc.prog.stableHeap[n] || heapStructVal[n] {
 			continue
 		}
+		if strings.HasPrefix(n, "Elems$") {
+			if t, ok := st.heap[n]; ok {
+				oldElems[n] = t
+			}
+		}
 		st.heap[n] = vc.fresh(n, vc.universe[n])
+	}
+	if why == "loop" || len(vc.privSlices) == 0 {
+		return
+	}
+	// private local slices (private.go): a backing array allocated by this activation that only
+	// the local variable can reach is not written by any callee
+	var objs []types.Object
+	for o := range st.vars {
+		if vc.privSlices[o] && st.vars[o].Sort == SSlc {
+			objs = append(objs, o)
+		}
+	}
+	sort.Slice(objs, func(i, j int) bool { return objs[i].Pos() < objs[j].Pos() })
+	for _, o := range objs {
+		sl, ok := types.Unalias(o.Type()).Underlying().(*types.Slice)
+		if !ok {
+			continue
+		}
+		n := elemsName(sortOfType(sl.Elem()))
+		old, ok := oldElems[n]
+		if !ok {
+			continue
+		}
+		v := st.vars[o]
+		st.assume(Implies(app(SBool, ">", sbase(v), Term{"alloc$base", SInt}), Eq(Select(st.heap[n], sbase(v)), Select(old, sbase(v)))))
+		vc.notes["private local slice "+o.Name()+": contents kept across opaque calls"]++
 	}
 }
 
@@ -724,6 +757,35 @@ func (o *Obligation) QuerySliced(keep string) string {
 	}
 	var b strings.Builder
 	b.WriteString(preamble)
+	// floating-point literals are uninterpreted constants of sort F64, pairwise distinct
+	// (f64c_0 is the zero value); no arithmetic is modelled
+	{
+		seen := map[string]bool{}
+		var fc []string
+		scan := func(s string) {
+			for _, m := range f64constRe.FindAllString(s, -1) {
+				if !seen[m] {
+					seen[m] = true
+					fc = append(fc, m)
+				}
+			}
+		}
+		for _, c := range o.vc.cmds[:o.NCmds] {
+			scan(c)
+		}
+		scan(o.PC.S)
+		scan(o.Goal.S)
+		sort.Strings(fc)
+		for _, m := range fc {
+			b.WriteString("(declare-const " + m + " F64)\n")
+			if m == "f64c_0" {
+				b.WriteString("(assert (= f64c_0 f64zero))\n")
+			}
+		}
+		if len(fc) > 1 {
+			b.WriteString("(assert (distinct " + strings.Join(fc, " ") + "))\n")
+		}
+	}
 	for _, c := range o.vc.cmds[:o.NCmds] {
 		if keep != "" && strings.HasPrefix(c, ";@hyp:") {
 			nl := strings.Index(c, "\n")
